@@ -11,9 +11,9 @@
      peak has no closed form; psig is covered for slopes of equal sign, dsig under its precondition (peak at the midpoint
      of the centres);
    * S and Z at zero width (a = b) are outside the property's quantifier; C13_sz_zero_width states what the code does. *)
-From Coq Require Import Reals ZArith List Bool.
-From LibaV Require Import Common.NumOps Common.ROps C12.PidDefs C13.R13Ops C13.MfDefs C13.FuzzyDefs
-  C13.MfProofs C13.MfCont C13.MfExtra C13.OprProofs C13.FuzzyLimits C13.FuzzyProofs C13.FuzzyGains.
+From Coq Require Import Reals ZArith List Bool Floats.
+From LibaV Require Import Common.NumOps Common.ROps Common.FloatOps C12.PidDefs C13.R13Ops C13.MfDefs C13.FuzzyDefs
+  C13.MfProofs C13.MfCont C13.MfExtra C13.OprProofs C13.FuzzyLimits C13.FuzzyProofs C13.FuzzyGains C13.Examples.
 Import ListNotations.
 Local Open Scope R_scope.
 
@@ -332,3 +332,41 @@ Print Assumptions C13_fuzzy_out_in_limits.
 Theorem C13_history_setup : forall ops s s', frun R13_ops s ops = Ok s' -> same_setup s s'.
 Proof. exact (frun_setup R13_ops). Qed.
 Print Assumptions C13_history_setup.
+
+(* ============================================================ non-vacuity and the code as found *)
+(* a concrete controller (two triangular sets per input, 2 x 2 rule bases, a block of A_PID_FUZZY_BFUZZ(2) bytes) satisfies
+   every hypothesis of C13_gains / C13_step for every operator, with both sets of both inputs active *)
+Theorem C13_gains_hypotheses_satisfiable : forall k,
+  let s := ex_state RO k in
+  sized s /\ rules_ok s /\ table_ok (nrule s) (me s) /\ table_ok (nrule s) (mec s) /\
+  walk_spec (nrule s) 0 (/ 2) (me s) = Some [(0%nat, / 2); (1%nat, / 2)] /\
+  walk_spec (nrule s) 0 (/ 2) (mec s) = Some [(0%nat, / 2); (1%nat, / 2)] /\
+  (2 <= nfuzz s)%nat /\ outmin (fpid s) <= outmax (fpid s).
+Proof. exact ex_hypotheses. Qed.
+Print Assumptions C13_gains_hypotheses_satisfiable.
+
+(* on it the algebraic product fires all four rules with weight 1/4: kp = 10 + (1+2+3+4)/4, ki = 1 + 1/4, kd = base *)
+Theorem C13_gains_example : exists s',
+  fuzzy_out_ RO (ex_state RO 2) (/ 2) (/ 2) = Ok s' /\ sized s' /\
+  kp (fpid s') = 25 / 2 /\ ki (fpid s') = 5 / 4 /\ kd (fpid s') = 0.
+Proof. exact ex_algebra_gains. Qed.
+Print Assumptions C13_gains_example.
+
+(* the same state under the bounded product has joint membership sum 0: the repaired code keeps the base gains ... *)
+Theorem C13_zero_sum_keeps_base : exists s',
+  fuzzy_out_ RO (ex_state RO 3) (/ 2) (/ 2) = Ok s' /\ kp (fpid s') = 10 /\ ki (fpid s') = 1 /\ kd (fpid s') = 0.
+Proof. exact ex_bounded_gains. Qed.
+Print Assumptions C13_zero_sum_keeps_base.
+
+(* ... while a_pid_fuzzy_out_ AS FOUND (no guard before inv = 1 / inv), run on the binary64 instance, stores NaN as kp *)
+Theorem C13_out_as_found_refuted :
+  is_nan (kp_of (fuzzy_out_orig F64_ops (ex_state F64_ops 3) (half F64_ops) (half F64_ops))) = true.
+Proof. exact orig_out_refuted. Qed.
+Print Assumptions C13_out_as_found_refuted.
+
+(* a block sized for one active set per input while two are active: the model reports the overrun (Fail ErrScratch) *)
+Theorem C13_overrun_detected :
+  match fuzzy_out_ F64_ops (set_bfuzz (ex_state F64_ops 2) 1 0 0%float) (half F64_ops) (half F64_ops) with
+  | Fail ErrScratch => true | _ => false end = true.
+Proof. exact overrun_detected. Qed.
+Print Assumptions C13_overrun_detected.
